@@ -1203,3 +1203,37 @@ def drive_pass(ctx, case, seconds=10.0):
             "dart-scheduler",
         )
     return info
+
+
+# ================================================================================================
+# the repo's own unit tests under the monitors:   python -m vf.contracts_sched [pytest args]
+# ================================================================================================
+def run_own_tests(argv=None):
+    """Run tests/ir/dart of the repo with every monitor installed; print evaluation counters and any contract
+    that fired.  Exit status: 1 when a monitor recorded a violation, else pytest's."""
+    import vf.compat as compat
+
+    import pytest
+
+    install()
+    ST.check_img = True
+    ST.check_fit = True
+    ST.reset_case()
+    ST.in_search_budget_default = 10**9
+    repo = compat.repo_path()
+    args = list(argv or []) or ["-q", "-p", "no:cacheprovider", os.path.join(repo, "tests", "ir", "dart")]
+    rc = pytest.main(args)
+    install()  # report rebinding sites found after the test modules were imported (from-imports made before install
+    # hold the monitored objects already because install() ran first)
+    print("monitor evaluations:")
+    for k, v in sorted(ST.counters.items()):
+        print(f"  {k} = {v}")
+    vs = ST.take_violations()
+    print(f"contracts fired: {len(vs)}")
+    for v in vs:
+        print(f"  {v['kind']}: {v['detail'][:400]}")
+    return 1 if vs else int(rc)
+
+
+if __name__ == "__main__":
+    sys.exit(run_own_tests(sys.argv[1:]))
